@@ -146,6 +146,14 @@ func c11payload(seed uint64, tag int, size int) []byte {
 
 var c11sizes = []int{0, 1, 3, 4, 5, 12, 31, 32, 33, 63, 64, 65, 100, 255, 256, 257, 1000, 4095, 4096, 4097, 16384, 65535, 65536}
 
+func init() {
+	// payload sizes that put the frame length (payload + 64) on, just below and just above a power of two:
+	// buffer-pool and read-buffer thresholds live there
+	for l := 128; l <= 65536; l *= 2 {
+		c11sizes = append(c11sizes, l-64-1, l-64, l-64+1)
+	}
+}
+
 func genC11(seed uint64, index int, tier string) *run.Plan {
 	g := core.NewRng(core.Mix(seed, 11))
 	p := &run.Plan{Property: "C11", Tier: tier, Seed: seed, Index: index, P: map[string]int{}}
@@ -219,6 +227,7 @@ type c11client struct {
 	connErr  error
 	returned bool
 	got      [][]byte
+	gotSum   [][32]byte
 	sendErrs []string
 	sentOK   [][]byte // payloads whose Send returned nil, in call order
 	tried    [][]byte // every payload handed to Send
@@ -282,7 +291,10 @@ func execC11(t *testing.T, w *core.World, p *run.Plan, r *run.Result) {
 					w.Tag(fmt.Sprintf("client-%d-rx", ci))
 					for pk := range conn.Responses() {
 						cl.mu.Lock()
-						cl.got = append(cl.got, append([]byte{}, pk.Payload...))
+						// keep the delivered slice itself (no copy) plus its digest at delivery time: a payload that
+						// the library overwrites later (buffer reuse) has to show up in the comparison at the end
+						cl.got = append(cl.got, pk.Payload)
+						cl.gotSum = append(cl.gotSum, sha256.Sum256(pk.Payload))
 						cl.mu.Unlock()
 					}
 				}()
@@ -385,6 +397,12 @@ func execC11(t *testing.T, w *core.World, p *run.Plan, r *run.Result) {
 	for ci := 0; ci < nconns; ci++ {
 		cl := clients[ci]
 		cl.mu.Lock()
+		for i := range cl.got {
+			if sha256.Sum256(cl.got[i]) != cl.gotSum[i] {
+				w.Violate("C11.c-s2c", "C11.c|payload-changed-after-delivery", fmt.Sprintf("client %d: the %d-byte payload of delivered packet %d changed after it was handed to the application", ci, len(cl.got[i]), i))
+				break
+			}
+		}
 		f := faultFor(ci)
 		var c *core.Conn
 		var st *c11conn
